@@ -670,3 +670,36 @@ VARIANTS["C06"] = [
     V("twin-stride-var", "twin", VO, [("            first_s += NBATCH - SAMPLES_TAPER * 2\n", "            step = NBATCH - 2 * SAMPLES_TAPER\n            first_s = first_s + step\n")], (), ""),
     V("twin-intnorm-inplace", "twin", VO, [("            chunk = chunk[slice(*ind2save), :] * intnorm\n", "            chunk = chunk[slice(*ind2save), :]\n            chunk = chunk * intnorm\n")], (), ""),
 ]
+
+# ------------------------------------------------------------------------------------------------ C19
+VARIANTS["C19"] = [
+    V("pair-mask-drops-index-zero", "fire", UT, [("        return fcn_a2b, drift_ppm, np.where(ib >= 0)[0], ib[ib >= 0]\n", "        return fcn_a2b, drift_ppm, np.where(ib >= 0)[0], ib[ib > 0]\n")], ("D1",),
+      "the match with event 0 of tsb is dropped from one vector only: every later pair is mis-aligned"),
+    V("fit-unpaired", "fire", UT, [("        ab = np.polyfit(tsa[ib >= 0], tsb[ib[ib >= 0]] - tsa[ib >= 0], 1)\n", "        ab = np.polyfit(tsa[ib >= 0], tsb[ib >= 0] - tsa[ib >= 0], 1)\n")], ("D1",), "tsb indexed by the mask instead of the stored matches"),
+    V("ib-init-zero", "fire", UT, [("    ib = np.zeros(tsa.shape, dtype=np.int32) - 1\n", "    ib = np.zeros(tsa.shape, dtype=np.int32)\n")], ("D1",), "every unmatched event reads as matched with event 0"),
+    V("second-pass-row-not-blanked", "fire", UT, [("        dt[:, _a] = np.nan\n        dt[_b, :] = np.nan\n", "        dt[:, _a] = np.nan\n")], ("D2",), "an event of tsb can be matched twice"),
+    V("second-pass-axes-swapped", "fire", UT, [("        _b, _a = np.unravel_index(np.nanargmin(dt), dt.shape)\n", "        _a, _b = np.unravel_index(np.nanargmin(dt), dt.shape)\n")], ("D2",), ""),
+    V("second-pass-store-direct", "fire", UT, [("        ib[iamiss[_a]] = ibmiss[_b]\n", "        ib[iamiss[_a]] = _b\n")], ("D2",), "index into the unmatched list stored as an index into tsb"),
+    V("linear-map-without-identity", "fire", UT, [("            fcn_a2b = lambda x: x * (1 + ab[0]) + ab[1]  # noqa\n", "            fcn_a2b = lambda x: x * ab[0] + ab[1]  # noqa\n")], ("D3",), "the fit is of the difference, the map forgets to add x"),
+    V("drift-in-ppk", "fire", UT, [("        drift_ppm = ab[0] * 1e6\n", "        drift_ppm = ab[0] * 1e3\n")], ("D3",), ""),
+    V("delta-added", "fire", UT, [("        dt = np.abs(tsa[m] - delta_t - tsb)\n", "        dt = np.abs(tsa[m] + delta_t - tsb)\n")], ("D3",), "coarse offset applied with the wrong sign"),
+    V("twin-flatnonzero-pairs", "twin", UT, [("        return fcn_a2b, drift_ppm, np.where(ib >= 0)[0], ib[ib >= 0]\n", "        return fcn_a2b, drift_ppm, np.flatnonzero(ib >= 0), ib[ib >= 0]\n")], (), ""),
+    V("twin-linear-map-expanded", "twin", UT, [("            fcn_a2b = lambda x: x * (1 + ab[0]) + ab[1]  # noqa\n", "            fcn_a2b = lambda x: x + ab[0] * x + ab[1]  # noqa\n")], (), ""),
+]
+
+# ------------------------------------------------------------------------------------------------ C20
+VARIANTS["C20"] = [
+    V("venn-chunks-overlap", "fire", "src/ibldsp/spiketrains.py", [("                *np.searchsorted(samples, [sample_offset, sample_offset + chunk_size])\n", "                *np.searchsorted(samples, [sample_offset, sample_offset + chunk_size + 1])\n")], ("D1",),
+      "a spike on a chunk boundary is counted in two chunks"),
+    V("venn-last-chunk-missing", "fire", "src/ibldsp/spiketrains.py", [("    num_chunks = int((max_samples // chunk_size) + 1)\n", "    num_chunks = int(np.ceil(max_samples / chunk_size))\n")], ("D1",), "a last spike exactly on a chunk boundary is never counted"),
+    V("venn-right-side", "fire", "src/ibldsp/spiketrains.py", [("                *np.searchsorted(samples, [sample_offset, sample_offset + chunk_size])\n", "                *np.searchsorted(samples, [sample_offset, sample_offset + chunk_size], side=\"right\")\n")], ("D1",), "boundary spikes move to the earlier chunk and fall outside its histogram"),
+    V("venn-no-rebase", "fire", "src/ibldsp/spiketrains.py", [("            samples[spike_indices[i]].astype(int) - sample_offset\n", "            samples[spike_indices[i]].astype(int)\n")], ("D1",), ""),
+    V("stack-fold-from-sizes", "fire", VO, [("        hstack = fold\n", "        hstack = uinds\n")], ("D2",), ""),
+    V("stack-axis-1", "fire", VO, [("        stack[sind, :] = fcn_agg(data[i2stack, :], axis=0)\n", "        stack[sind, :] = fcn_agg(data[i2stack, :], axis=1)\n")], ("D2",), ""),
+    V("savgol-right-border-short", "fire", "src/ibldsp/smooth.py", [("    for i in range(len(x) - half_window, len(x), 1):\n", "    for i in range(len(x) - half_window + 1, len(x), 1):\n")], ("D3",), "one output sample stays NaN"),
+    V("savgol-window-off-centre", "fire", "src/ibldsp/smooth.py", [("            t[j] = x[i + j - half_window] - x[i]\n", "            t[j] = x[i + j - half_window + 1] - x[i]\n")], ("D3",), ""),
+    V("lp-crop-asymmetric", "fire", "src/ibldsp/smooth.py", [("    return ts_[lpad:-lpad]\n", "    return ts_[lpad:-lpad + 1]\n")], ("D4",), "one extra sample returned"),
+    V("lp-pad-reflect", "fire", "src/ibldsp/smooth.py", [("    ts_ = np.pad(ts, lpad, mode=\"edge\")\n", "    ts_ = np.pad(ts, lpad, mode=\"reflect\")\n")], ("D4",), ""),
+    V("twin-venn-bounds-named", "twin", "src/ibldsp/spiketrains.py", [("                *np.searchsorted(samples, [sample_offset, sample_offset + chunk_size])\n", "                *np.searchsorted(samples, [ch * chunk_size, (ch + 1) * chunk_size])\n")], (), ""),
+    V("twin-lp-pad-tuple", "twin", "src/ibldsp/smooth.py", [("    ts_ = np.pad(ts, lpad, mode=\"edge\")\n", "    ts_ = np.pad(ts, (lpad, lpad), mode=\"edge\")\n")], (), ""),
+]
